@@ -15,6 +15,15 @@ def exc_name(ex):
     return type(ex).__name__
 
 
+def reraise_control(ex):
+    """Engine panics (pyo3 PanicException) derive from BaseException; control-flow exceptions
+    must still propagate."""
+    from .runner import CaseTimeout
+
+    if isinstance(ex, (KeyboardInterrupt, SystemExit, GeneratorExit, CaseTimeout)):
+        raise ex
+
+
 def _no_col(e):
     from .ir import walk_expr
 
@@ -56,6 +65,9 @@ def engine_quirk(ex, case):
             or "output length of `map`" in msg):
         if _scalar_shapes(case):
             return "polars_scalar_broadcast"
+    if exc_name(ex) in ("InvalidOperationError", "PanicException", "SchemaError", "ComputeError") and (
+            "null" in msg or "Null" in msg) and any(len(t["rows"]) == 0 for t in case["tables"]):
+        return "polars_empty_frame_null_dtype"  # typing of all-null results over empty frames
     if exc_name(ex) == "InvalidOperationError" and "joining with repeated key names" in msg:
         return "polars_repeated_join_key"  # Polars limitation on join keys (join docstring note)
     return None
@@ -166,7 +178,8 @@ def examine_pipeline(case, out: Outcome, *, backends=("polars", "sqlite"), ref_c
         for rv in rvars:
             try:
                 df = build.export_polars(b.vars[rv])
-            except Exception as ex:
+            except BaseException as ex:  # noqa: BLE001
+                reraise_control(ex)
                 if kind == "sqlite" and is_refusal(ex):
                     out.count("sql_refused_at_export:" + exc_name(ex))
                     continue
@@ -215,7 +228,8 @@ def _noopt_agrees(tbl, compare):
         df = build.export_polars_noopt(tbl)
         compare(df)
         return True
-    except Exception:
+    except BaseException as ex:  # noqa: BLE001
+        reraise_control(ex)
         return False
 
 
@@ -241,7 +255,8 @@ def first_divergence(run: PipelineRun, kind, rv) -> str:
             oracle.compare_ref(run.ref.vars[v], df, view=view)
         except oracle.Mismatch:
             return f"{s['verb']}<{prev}"
-        except Exception as ex:
+        except BaseException as ex:  # noqa: BLE001
+            reraise_control(ex)
             return f"{s['verb']}!{exc_name(ex)}"
         if not s.get("_auto"):
             prev = s["verb"]
@@ -298,7 +313,8 @@ def first_diff_divergence(run, rv):
             differential_compare(run.ref.vars[v], build.export_polars(pl.vars[v]), build.export_polars(sq.vars[v]))
         except oracle.Mismatch:
             return f"{s['verb']}<{prev}"
-        except Exception as ex:
+        except BaseException as ex:  # noqa: BLE001
+            reraise_control(ex)
             return f"{s['verb']}!{exc_name(ex)}"
         if not s.get("_auto"):
             prev = s["verb"]
